@@ -197,6 +197,12 @@ def playback(root, pkg, harness, module, timeout_s=2400):
     sp = os.path.join(root, src)
     s = open(sp).read().replace('#[path = "%s"]' % hp, '#[path = "%s"]' % local)
     open(sp, 'w').write(s)
+    # some crates switch their lib tests off ([lib] test = false); the scratch copy may run them
+    ct = os.path.join(root, src.split('/')[0], 'Cargo.toml')
+    if os.path.exists(ct):
+        c = open(ct).read()
+        if re.search(r'^test\s*=\s*false', c, re.M):
+            open(ct, 'w').write(re.sub(r'^test\s*=\s*false', 'test = true', c, flags=re.M))
     tname = re.search(r'fn (kani_concrete_playback_\w+)', test_src)
     tname = tname.group(1) if tname else ''
     cmd2 = ['cargo', 'kani', 'playback', '-Z', 'concrete-playback', '-p', pkg, '--', tname]
